@@ -30,7 +30,7 @@ COMPONENTS = {"real": ["litex.soc.interconnect.axi.AXILite2Wishbone/Wishbone2AXI
                        "litex.gen.sim.core.Simulator"],
               "stub": ["AXI-Lite / Wishbone master and slave agents", "clock source"]}
 CHUNK = 4
-FAMS = ["axil2wb", "wb2axil", "axil_conv", "axil_sram", "axil2csr", "axil_remap", "chain"]
+FAMS = ["axil2wb", "wb2axil", "axil_conv", "axil_sram", "axil2csr", "axil_remap", "chain", "axi2axil", "axi2wb", "axil2axi", "wb2axi", "ahb2wb"]
 
 
 def plan(tier):
@@ -61,7 +61,35 @@ def slave_cfg(rng, horizon=300):
             "depth": rng.choice([1, 2, 4])}
 
 
-def generate(family, rng, tier, wb_err=False, up_pipelined=False):
+def gen_axi_ops(rng, n, nb, base_word, narrow=True):
+    from dsim.axi_agents import FIXED, INCR, WRAP
+    ops = []
+    full = (nb - 1).bit_length()
+    for j in range(n):
+        burst = rng.choice([INCR, INCR, INCR, FIXED, WRAP])
+        size = full if (not narrow or rng.random() < 0.75) else rng.randint(0, full)
+        ln = rng.choice([1, 3, 7]) if burst == WRAP else rng.choice([0, 0, 1, 2, 3, 5])
+        addr = (base_word + rng.randrange(8)) * nb
+        if size < full:
+            addr += rng.randrange(nb >> size) << size
+        op = {"kind": rng.choice(["w", "r"]), "addr": addr, "len": ln, "size": size, "burst": burst, "id": rng.getrandbits(3),
+              "gap": rng.choice([0, 0, 1, 4])}
+        if op["kind"] == "w":
+            from dsim.axi_agents import beat_addresses
+            op["data"], op["strb"] = [], []
+            for k_, a in enumerate(beat_addresses(addr, ln, size, burst)):
+                lo = a % nb
+                lanes = ((1 << (1 << size)) - 1) << ((lo >> size) << size)
+                if rng.random() < 0.3:
+                    lanes &= rng.getrandbits(nb)
+                op["strb"].append(lanes & ((1 << nb) - 1))
+                op["data"].append(rng.getrandbits(8 * nb))
+            op["wgaps"] = [rng.choice([0, 0, 1, 3]) for _ in range(4)]
+        ops.append(op)
+    return ops
+
+
+def generate(family, rng, tier, wb_err=False, up_pipelined=False, lite_pipelined=False):
     n = rng.randint(20, 60)
     p = {"family": family}
     scn = {"family": family, "params": p, "max_out": rng.choice([1, 2, 4]),
@@ -105,6 +133,39 @@ def generate(family, rng, tier, wb_err=False, up_pipelined=False):
         p.update(origin=rng.choice([0, 0x10000, 0x40000000]), size=rng.choice([None, 0x100, 0x1000]))
         scn["ops"] = gen_axil_ops(rng, n, 4, lambda r: r.choice([0, 0x40, 0x400, 0x4000]) + r.randrange(6))
         scn["slave"] = slave_cfg(rng)
+    elif family in ("axi2axil", "axi2wb"):
+        p.update(base=0)
+        scn["ops"] = gen_axi_ops(rng, rng.randint(8, 24), 4, 0x10)
+        scn["max_out"] = rng.choice([1, 2])
+        if family == "axi2axil":
+            scn["slave"] = slave_cfg(rng)
+            if not lite_pipelined:
+                # known finding C09-F4: the bridge needs an AXI-Lite slave that takes one request at a time and never takes
+                # the write data before the address
+                scn["slave"]["depth"] = 1
+                scn["slave"]["aw"] = ""
+        else:
+            scn["lat"] = [rng.choice([1, 1, 2, 5]) for _ in range(8)]
+    elif family == "axil2axi":
+        scn["ops"] = gen_axil_ops(rng, n, 4, lambda r: 0x30 + r.randrange(8))
+        scn["slave"] = slave_cfg(rng)
+    elif family == "wb2axi":
+        ops = []
+        for j in range(n):
+            gap = rng.choice([0, 0, 1, 3])
+            ops.append({"we": int(rng.random() < 0.5), "adr": 0x50 + rng.randrange(8), "dat": rng.getrandbits(32),
+                        "sel": rng.choice([15, 15, 3, 5, 8]), "gap": gap, "keep_cyc": 0})
+        scn["ops"] = ops
+        scn["slave"] = slave_cfg(rng)
+    elif family == "ahb2wb":
+        ops = []
+        for j in range(n):
+            size = rng.choice([2, 2, 1, 0])
+            a = (0x20 + rng.randrange(8)) * 4 + (rng.randrange(4 >> size) << size)
+            ops.append({"write": int(rng.random() < 0.5), "addr": a, "size": size, "data": rng.getrandbits(32), "gap": rng.choice([0, 0, 1, 3])})
+        scn["ops"] = ops
+        scn["lat"] = [rng.choice([1, 1, 2, 5]) for _ in range(8)]
+        p["addressing"] = rng.choice(["word", "byte"])
     elif family == "chain":
         p.update(kind=rng.choice(["axil_wb_axil", "wb_axil_wb"]))
         if p["kind"] == "axil_wb_axil":
@@ -123,6 +184,13 @@ def generate(family, rng, tier, wb_err=False, up_pipelined=False):
 
 # ------------------------------------------------------------------------------------------------
 def run(scn):
+    if scn["family"] in ("axi2axil", "axi2wb", "axil2axi", "wb2axi", "ahb2wb"):
+        from props import c09b
+        return c09b.run(scn)
+    return run1(scn)
+
+
+def run1(scn):
     from migen import Module, Memory
     from litex.soc.interconnect import wishbone, csr_bus
     from litex.soc.interconnect import axi
@@ -374,4 +442,6 @@ def known_match(scn, v):
     p = scn.get("params", {})
     if p.get("family") == "axil_conv" and p["dw_m"] < p["dw_s"] and scn.get("max_out", 1) > 1:
         return "C09-F2"
+    if p.get("family") == "axi2axil" and (scn.get("slave", {}).get("depth", 1) > 1 or scn.get("slave", {}).get("aw")):
+        return "C09-F4"
     return None
